@@ -409,6 +409,7 @@ func runR17(c *Ctx) {
 	s := &r2State{c: c, agg: map[string]*Obligation{}}
 	s.cmpCanceled = comparedWithCanceled(c)
 	s.cancelForms = map[string]map[string]token.Pos{}
+	s.cancelDelegates = map[string]map[string]bool{}
 	for _, d := range c.declsInScope() {
 		pv := paramVars(d)
 		var ctxP *types.Var
@@ -432,7 +433,17 @@ func runR17(c *Ctx) {
 	// the places of one function that report the end of its context agree on what they report: the
 	// literal context.Canceled at one place and <ctx>.Err() at another differ for an expired deadline
 	for _, name := range s.cancelOrder {
-		forms := s.cancelForms[name]
+		forms := map[string]token.Pos{}
+		for f, p := range s.cancelForms[name] {
+			forms[f] = p
+		}
+		for callee := range s.cancelDelegates[name] {
+			for f, p := range s.cancelForms[callee] {
+				if _, has := forms[f]; !has {
+					forms[f] = p
+				}
+			}
+		}
 		var pos token.Pos
 		for _, p := range forms {
 			if !pos.IsValid() || p > pos {
@@ -548,6 +559,7 @@ func (s *r2State) interruptPath(d *core.FuncDecl, ctxP *types.Var, chans []*type
 	// evidence since the last loop boundary
 	ctxEv, closedEv := false, false
 	recvErr := map[*types.Var]bool{} // local holding an error received from an error channel
+	errFrom := map[*types.Var]string{}  // local holding the error of a library function that was handed our context
 	guarded := map[*types.Var]bool{} // … and tested != nil on this path
 	cancelEv := false
 	ctxArm := false      // the select arm taken last was the ctx.Done() arm
@@ -720,7 +732,39 @@ func (s *r2State) interruptPath(d *core.FuncDecl, ctxP *types.Var, chans []*type
 			if passes && ev.Callee != nil && ev.Callee.Pkg() != nil && ev.Callee.Pkg().Path() != "context" {
 				s.blockingSite(name, ev, nil, ctxP, ctxs, chans, p)
 			}
+		case core.KPanic:
+			// (placeholder so that the delegation bookkeeping below stays next to its use)
+		}
+		switch ev.Kind {
+		case core.KAssign:
+			// an error taken from a library function that was handed our context: what that function
+			// reports for the end of the context is what we report when we return it
+			if ev.Frame.Parent == nil && ev.Rhs != nil && ctxP != nil {
+				if call, ok := unparen(ev.Rhs).(*ast.CallExpr); ok {
+					if f, _ := typeutil.Callee(ev.Frame.Info(), call).(*types.Func); f != nil && core.InModule(f) {
+						hands := false
+						for _, a := range call.Args {
+							if iv(a, ev.Frame) == ctxP {
+								hands = true
+							}
+						}
+						if lv := iv(ev.Lhs, ev.Frame); lv != nil && hands && isErrorType(lv.Type()) {
+							errFrom[lv] = core.FuncName(f.Origin())
+						}
+					}
+				}
+			}
 		case core.KReturn:
+			if ev.Frame.Parent == nil {
+				for _, r := range ev.Results {
+					if lv := iv(r, ev.Frame); lv != nil && errFrom[lv] != "" {
+						if s.cancelDelegates[name] == nil {
+							s.cancelDelegates[name] = map[string]bool{}
+						}
+						s.cancelDelegates[name][errFrom[lv]] = true
+					}
+				}
+			}
 			// results assigned to named results / temporaries before the return read as if returned directly
 			if rs := returnExprsC(c, p, i); len(rs) > 0 {
 				ev2 := *ev
